@@ -3,7 +3,7 @@
        stylesheet ::= rule*        rule ::= Ident '{' decl* '}'        decl ::= Ident ':' value ';'
    where value is one token of type Ident / Number / Dimension / Percentage / Hash / String. *)
 From Verif Require Import Common.Base Common.Tactics Common.Lx Css.Model Css.Basics Css.Bounds Css.Proofs Css.Agree.
-From Verif Require Import CssParse.Model CssParse.Proofs CssParse.Trace CssParse.Conserve.
+From Verif Require Import CssParse.Model CssParse.Hash CssParse.Proofs CssParse.Trace CssParse.Conserve.
 From Coq Require Import ZifyBool.
 
 (* the lexer, started at z, returns exactly the tokens toks and then the end of input *)
@@ -65,6 +65,15 @@ Qed.
 Definition wf_state (p : parser) (st : list pstate) (toks : list tok) : Prop :=
   css_inv (pl p) /\ lexes (pl p) toks /\ pst p = st /\ plevel p = 0 /\ prevend p = false /\ keepws p = false /\
   isstyle p = true.
+
+(* ... when the previous unit has already read the '}' that closes the innermost block (p.prevEnd) *)
+Definition wf_pend (p : parser) (st : list pstate) (toks : list tok) : Prop :=
+  css_inv (pl p) /\ lexes (pl p) toks /\ pst p = st /\ plevel p = 0 /\ prevend p = true /\ keepws p = false /\
+  isstyle p = true.
+(* a unit is ended by ';' or by the '}' of its block *)
+Definition term_ok (tb : tok) : Prop := fst tb = TSemicolon \/ fst tb = TRightBrace.
+Definition wf_after (tb : tok) (p : parser) (st : list pstate) (toks : list tok) : Prop :=
+  if is_t (fst tb) TRightBrace then wf_pend p st toks else wf_state p st toks.
 
 Definition is_val (t : ttype) : bool :=
   match t with TIdent | TNumber | TDimension | TPercentage | THash | TString => true | _ => false end.
@@ -318,18 +327,19 @@ Proof.
 Qed.
 
 (* the ';' that ends the declaration *)
-Lemma decl_end f F p o s ts b0 after c vals : css_inv (pl p) -> keepws p = false -> (1 <= F)%nat -> plevel p = 0 ->
-  lexes (pl p) (optws o ++ (TSemicolon, s) :: ts) -> pbuf p = b0 :: after -> drop_ws after = (TColon, c) :: vals ->
+Lemma decl_end f F p o tb ts b0 after c vals : css_inv (pl p) -> keepws p = false -> (1 <= F)%nat -> plevel p = 0 ->
+  term_ok tb -> lexes (pl p) (optws o ++ tb :: ts) -> pbuf p = b0 :: after -> drop_ws after = (TColon, c) :: vals ->
   exists z', css_inv z' /\ lexes z' ts /\
     declaration_loop (S f) F p =
       POk (GDeclaration, set_prevend (set_tok (set_buf (relex p z' (isws o) false) (compact [] (drop_ws vals)))
-                                              (ptt p) (to_lower (pdata p))) false).
+                                              (ptt p) (to_lower (pdata p))) (is_t (fst tb) TRightBrace)).
 Proof.
-  intros Hi Hkw HF Hlv Hl Hb Hd.
-  destruct (pop_token_ows F false p o TSemicolon s ts Hi Hkw Hl eq_refl HF) as (z' & Hpop & Hl' & Hi').
+  intros Hi Hkw HF Hlv Hterm Hl Hb Hd. destruct tb as [tt bb]. unfold term_ok in Hterm. cbn [fst] in *.
+  assert (Hp : plain_tok tt = true) by (destruct Hterm as [->| ->]; reflexivity).
+  destruct (pop_token_ows F false p o tt bb ts Hi Hkw Hl Hp HF) as (z' & Hpop & Hl' & Hi').
   exists z'. split; [exact Hi'|]. split; [exact Hl'|].
   rewrite declaration_loop_S, Hpop. cbn [pbind fst snd]. unfold ends_unit. cbn [relex plevel pbuf]. rewrite Hlv, Hb, Hd.
-  cbn [fst]. evis. cbn [Z.eqb orb andb]. reflexivity.
+  destruct Hterm as [->| ->]; cbn [fst]; evis; cbn [Z.eqb orb andb]; reflexivity.
 Qed.
 
 (* the expected Values(): a single space where the source has whitespace between two tokens neither of which is one
@@ -531,7 +541,7 @@ Proof.
   - unfold parse_at_rule_rule_list. rewrite H7, H6, H3. reflexivity.
 Qed.
 
-Lemma at_dispatch s st0 F q : rule_ctx s -> ptt q = TAtKeyword ->
+Lemma at_dispatch s st0 F q : s <> SAtRuleUnknown -> s <> SDeclarationList -> ptt q = TAtKeyword ->
   match s :: st0 with
   | [] => PPanic
   | SStylesheet :: _ => parse_stylesheet F q
@@ -542,9 +552,17 @@ Lemma at_dispatch s st0 F q : rule_ctx s -> ptt q = TAtKeyword ->
   | SQualifiedRuleDeclarationList :: _ => parse_qualified_rule_declaration_list F q
   end = parse_at_rule F q.
 Proof.
-  intros [->| ->] H.
+  intros H1 H2 H.
+  assert (Hdl : parse_declaration_list F q = parse_at_rule F q).
+  { unfold parse_declaration_list. rewrite H. evis. cbn [pbind]. rewrite skip_semicolons_none by (rewrite H; discriminate).
+    cbn [pbind]. rewrite H. evis. cbn [pbind]. cbv zeta. rewrite H. evis. reflexivity. }
+  destruct s; try congruence.
   - unfold parse_stylesheet. rewrite H. reflexivity.
   - unfold parse_at_rule_rule_list. rewrite H. reflexivity.
+  - unfold parse_at_rule_declaration_list. rewrite skip_semicolons_none by (rewrite H; discriminate). cbn [pbind]. cbv zeta.
+    rewrite H. evis. cbn [orb]. exact Hdl.
+  - unfold parse_qualified_rule_declaration_list. rewrite skip_semicolons_none by (rewrite H; discriminate). cbn [pbind]. cbv zeta.
+    rewrite H. evis. cbn [orb]. exact Hdl.
 Qed.
 
 (* a ruleset: selector tokens, '{' *)
@@ -611,19 +629,37 @@ Proof.
   rewrite S7, A10. exact B10.
 Qed.
 
+(* the states in which declarations are read: the block of a ruleset and of @font-face / @page *)
+Definition decl_ctx (s : pstate) : Prop := s = SQualifiedRuleDeclarationList \/ s = SAtRuleDeclarationList.
+
+Lemma decl_dispatch s st0 F q : decl_ctx s -> ptt q <> TSemicolon -> is_t (ptt q) TRightBrace = false -> is_t (ptt q) TError = false ->
+  match s :: st0 with
+  | [] => PPanic
+  | SStylesheet :: _ => parse_stylesheet F q
+  | SDeclarationList :: _ => parse_declaration_list F q
+  | SAtRuleRuleList :: _ => parse_at_rule_rule_list F q
+  | SAtRuleDeclarationList :: _ => parse_at_rule_declaration_list F q
+  | SAtRuleUnknown :: _ => parse_at_rule_unknown q
+  | SQualifiedRuleDeclarationList :: _ => parse_qualified_rule_declaration_list F q
+  end = parse_declaration_list F q.
+Proof.
+  intros [->| ->] H1 H2 H3.
+  - unfold parse_qualified_rule_declaration_list. rewrite skip_semicolons_none by exact H1. cbn [pbind]. cbv zeta. rewrite H2, H3. reflexivity.
+  - unfold parse_at_rule_declaration_list. rewrite skip_semicolons_none by exact H1. cbn [pbind]. cbv zeta. rewrite H2, H3. reflexivity.
+Qed.
+
 (* Next in a declaration list, on a property name: everything up to the loop of parseDeclaration *)
-Lemma decl_head p st0 o1 prop ts : wf_state p (SQualifiedRuleDeclarationList :: st0) (optws o1 ++ (TIdent, prop) :: ts) ->
+Lemma decl_head p s st0 o1 prop ts : decl_ctx s -> wf_state p (s :: st0) (optws o1 ++ (TIdent, prop) :: ts) ->
   exists p0, parse_next p = declaration_loop (next_fuel p) (next_fuel p) p0 /\ css_inv (pl p0) /\ lexes (pl p0) ts /\
-    pbuf p0 = [(TIdent, prop)] /\ ptt p0 = TIdent /\ pdata p0 = prop /\ pst p0 = SQualifiedRuleDeclarationList :: st0 /\
+    pbuf p0 = [(TIdent, prop)] /\ ptt p0 = TIdent /\ pdata p0 = prop /\ pst p0 = s :: st0 /\
     plevel p0 = 0 /\ prevend p0 = false /\ keepws p0 = false /\ isstyle p0 = true /\ perr p0 = false.
 Proof.
-  intros (Hi & Hl & Hst & Hlv & Hpe & Hkw & Hsty).
+  intros Hctx (Hi & Hl & Hst & Hlv & Hpe & Hkw & Hsty).
   unfold parse_next. cbv zeta. change (prevend (set_err p false)) with (prevend p). rewrite Hpe.
   destruct (pop_token_ows (next_fuel p) true (set_err p false) o1 TIdent prop ts Hi Hkw Hl eq_refl (next_fuel_pos p Hi))
     as (z1 & Hpop & Hl1 & Hi1).
   rewrite Hpop. cbn [pbind fst snd]. cbn [set_tok relex set_err pst]. rewrite Hst.
-  unfold parse_qualified_rule_declaration_list. rewrite skip_semicolons_none by (cbn; discriminate). cbn [pbind]. cbv zeta.
-  cbn [set_tok ptt]. evis. cbn [orb].
+  rewrite (decl_dispatch s st0 _ _ Hctx) by (cbn [set_tok ptt]; first [discriminate|reflexivity]).
   unfold parse_declaration_list. cbn [set_tok ptt]. evis. cbn [pbind].
   rewrite skip_semicolons_none by (cbn; discriminate). cbn [pbind set_tok ptt]. evis. cbn [pbind orb]. cbv zeta. cbn [set_tok ptt]. evis.
   cbn [orb]. unfold parse_declaration. cbn [set_tok ptt pdata]. evis. cbv beta iota.
@@ -633,15 +669,15 @@ Proof.
 Qed.
 
 (* a declaration  ident ':' value-tokens ';'  inside a ruleset, with optional whitespace before each of its tokens *)
-Lemma step_decl p st0 o1 prop o2 c vl o4 s ts :
-  wf_state p (SQualifiedRuleDeclarationList :: st0)
-           (optws o1 ++ (TIdent, prop) :: optws o2 ++ (TColon, c) :: src_toks vl ++ optws o4 ++ (TSemicolon, s) :: ts) ->
+Lemma step_decl p s st0 o1 prop o2 c vl o4 tb ts : decl_ctx s -> term_ok tb ->
+  wf_state p (s :: st0)
+           (optws o1 ++ (TIdent, prop) :: optws o2 ++ (TColon, c) :: src_toks vl ++ optws o4 ++ tb :: ts) ->
   vl <> [] -> toks_ok 0 vl -> lv_after 0 vl = 0 ->
   exists p', parse_next p = POk (GDeclaration, p') /\ ptt p' = TIdent /\ pdata p' = to_lower prop /\
-    pbuf p' = expected_vals vl /\ perr p' = false /\ wf_state p' (SQualifiedRuleDeclarationList :: st0) ts.
+    pbuf p' = expected_vals vl /\ perr p' = false /\ wf_after tb p' (s :: st0) ts.
 Proof.
-  intros Hw Hne Hok Hlv0. pose proof Hw as (Hi & Hl & _).
-  destruct (decl_head p st0 o1 prop _ Hw) as (p0 & Hpn & Hi0 & Hl0 & Hb0 & Ht0 & Hd0 & Hst0 & Hlv & Hpe0 & Hkw0 & Hsty0 & Herr0).
+  intros Hctx Hterm Hw Hne Hok Hlv0. pose proof Hw as (Hi & Hl & _).
+  destruct (decl_head p s st0 o1 prop _ Hctx Hw) as (p0 & Hpn & Hi0 & Hl0 & Hb0 & Ht0 & Hd0 & Hst0 & Hlv & Hpe0 & Hkw0 & Hsty0 & Herr0).
   (* fuel *)
   assert (HN : exists f', next_fuel p = S (length vl + S f')).
   { pose proof (lexes_len _ _ Hi Hl) as Hlen. eapply fuel_split; [exact Hlen|].
@@ -656,7 +692,7 @@ Proof.
   rewrite Heq1. destruct (after_tok_f p0 z1 (isws o2) TColon c) as (G1 & G2 & G3 & G4).
   set (p1 := after_tok p0 z1 (isws o2) TColon c) in *.
   (* the value *)
-  destruct (decl_values (next_fuel p) (optws o4 ++ (TSemicolon, s) :: ts) HF vl (S f') p1) as (p2 & Hrun & Hi2 & Hl2 & Hb2 & Hlv2 & Hs2).
+  destruct (decl_values (next_fuel p) (optws o4 ++ tb :: ts) HF vl (S f') p1) as (p2 & Hrun & Hi2 & Hl2 & Hb2 & Hlv2 & Hs2).
   { rewrite G1. exact Hi1. }
   { destruct G4 as (G4 & _). rewrite G4. exact Hkw0. }
   { rewrite G1. exact Hl1. }
@@ -665,11 +701,12 @@ Proof.
   rewrite Hrun.
   pose proof (rest_same_trans _ _ _ G4 Hs2) as (S1 & S2 & S3 & S4 & S5 & S6 & S7).
   (* ';' *)
-  destruct (decl_end f' (next_fuel p) p2 o4 s ts (TIdent, prop)
+  destruct (decl_end f' (next_fuel p) p2 o4 tb ts (TIdent, prop)
               ((if isws o2 then [sp] else []) ++ (TColon, c) :: buf_toks vl) c (buf_toks vl) Hi2) as (z3 & Hi3 & Hl3 & Heq3).
   { rewrite S1. exact Hkw0. }
   { exact HF. }
   { rewrite Hlv2, G3, Hlv. exact Hlv0. }
+  { exact Hterm. }
   { exact Hl2. }
   { rewrite Hb2, G2, Hb0. cbn [app]. rewrite <- app_assoc. reflexivity. }
   { destruct o2; cbn [isws app drop_ws]; [change (is_wstok sp) with true; cbv beta iota; cbn [drop_ws]|]; reflexivity. }
@@ -677,9 +714,10 @@ Proof.
   cbn [set_prevend set_tok set_buf relex ptt pdata pbuf perr].
   split; [rewrite S3; exact Ht0|]. split; [rewrite S4, Hd0; reflexivity|].
   split; [eapply compact_expected; eassumption|]. split; [rewrite S5; exact Herr0|].
-  unfold wf_state. cbn [set_prevend set_tok set_buf relex pl pst plevel prevend keepws isstyle].
-  split; [exact Hi3|]. split; [exact Hl3|]. split; [rewrite S2; exact Hst0|]. split; [rewrite Hlv2, G3, Hlv; exact Hlv0|].
-  split; [reflexivity|]. split; [rewrite S1; exact Hkw0|rewrite S7; exact Hsty0].
+  unfold wf_after, wf_state, wf_pend. destruct (is_t (fst tb) TRightBrace);
+    cbn [set_prevend set_tok set_buf relex pl pst plevel prevend keepws isstyle];
+    (split; [exact Hi3|]; split; [exact Hl3|]; split; [rewrite S2; exact Hst0|]; split; [rewrite Hlv2, G3, Hlv; exact Hlv0|];
+     split; [reflexivity|]; split; [rewrite S1; exact Hkw0|rewrite S7; exact Hsty0]).
 Qed.
 
 (* --- nested rulesets -------------------------------------------------------------------------------------------------- *)
@@ -744,13 +782,13 @@ Proof.
   - assert (b0 = b) by congruence. subst b0. destruct b as [|c b']; [|eauto]. change (len (@nil Z)) with 0 in Hlen. lia.
 Qed.
 
-Lemma nest_head p st0 o1 t1 b1 ts : wf_state p (SQualifiedRuleDeclarationList :: st0) (optws o1 ++ (t1, b1) :: ts) ->
+Lemma nest_head p s st0 o1 t1 b1 ts : decl_ctx s -> wf_state p (s :: st0) (optws o1 ++ (t1, b1) :: ts) ->
   nest_first (t1, b1) = true ->
   exists p0, parse_next p = declaration_loop (next_fuel p) (next_fuel p) p0 /\ css_inv (pl p0) /\ lexes (pl p0) ts /\
-    pbuf p0 = [(t1, b1)] /\ ptt p0 = t1 /\ pdata p0 = b1 /\ pst p0 = SQualifiedRuleDeclarationList :: st0 /\
+    pbuf p0 = [(t1, b1)] /\ ptt p0 = t1 /\ pdata p0 = b1 /\ pst p0 = s :: st0 /\
     plevel p0 = tok_lv 0 t1 /\ prevend p0 = false /\ keepws p0 = false /\ isstyle p0 = true /\ perr p0 = false.
 Proof.
-  intros (Hi & Hl & Hst & Hlv & Hpe & Hkw & Hsty) Hfirst. unfold nest_first in Hfirst. cbn [fst snd] in Hfirst.
+  intros Hctx (Hi & Hl & Hst & Hlv & Hpe & Hkw & Hsty) Hfirst. unfold nest_first in Hfirst. cbn [fst snd] in Hfirst.
   assert (Hp1 : plain_tok t1 = true) by (destruct t1; try discriminate Hfirst; reflexivity).
   unfold parse_next. cbv zeta. change (prevend (set_err p false)) with (prevend p). rewrite Hpe.
   destruct (pop_token_ows (next_fuel p) true (set_err p false) o1 t1 b1 ts Hi Hkw Hl Hp1 (next_fuel_pos p Hi))
@@ -760,12 +798,9 @@ Proof.
     - destruct (lexes_cons _ _ _ _ Hl) as (z0 & Hn0 & Hl0 & _). apply (lexes_nonempty z0 t1 b1 ts (css_inv_next _ _ _ _ Hi Hn0) Hl0).
     - apply (lexes_nonempty _ _ _ _ Hi Hl). }
   rewrite Hpop. cbn [pbind fst snd]. cbn [set_tok relex set_err pst]. rewrite Hst.
-  unfold parse_qualified_rule_declaration_list.
-  rewrite skip_semicolons_none by (cbn [set_tok ptt]; destruct t1; try discriminate Hfirst; discriminate).
-  cbn [pbind]. cbv zeta.
+  rewrite (decl_dispatch s st0 _ _ Hctx) by (cbn [set_tok ptt]; destruct t1; try discriminate Hfirst; first [discriminate|reflexivity]).
   destruct (is_t t1 TDelim) eqn:Ed.
   - apply is_t_eq in Ed. subst t1. cbn in Hfirst. apply negb_true_iff in Hfirst. destruct Hne as (c & b' & ->). cbn [hd0] in Hfirst.
-    cbn [set_tok ptt]; evis; cbn [orb];
     unfold parse_declaration_list; cbn [set_tok ptt]; evis; cbn [pbind];
     (rewrite skip_semicolons_none by (cbn; discriminate)); cbn [pbind set_tok ptt pdata]; evis. rewrite peekz_0. cbn [of_opt pbind].
     rewrite Hfirst. cbn [pbind]; cbv zeta; cbn [set_tok ptt]; evis;
@@ -774,7 +809,7 @@ Proof.
     (eexists; split; [reflexivity|];
      cbn [set_level set_buf set_tok relex set_err pl pbuf ptt pdata pst plevel prevend keepws isstyle perr];
      split; [exact Hi1|]; split; [exact Hl1|]; unfold tok_lv; cbn; rewrite ?Hlv; repeat split; assumption).
-  - destruct t1; try discriminate Hfirst; try discriminate Ed; cbn [set_tok ptt]; evis; cbn [orb];
+  - destruct t1; try discriminate Hfirst; try discriminate Ed;
     unfold parse_declaration_list; cbn [set_tok ptt]; evis; cbn [pbind];
     (rewrite skip_semicolons_none by (cbn; discriminate)); cbn [pbind set_tok ptt]; evis; cbn [pbind orb]; cbv zeta; cbn [set_tok ptt]; evis;
     cbn [orb andb isstyle set_tok relex set_err]; rewrite ?Hsty; cbn [orb andb];
@@ -785,16 +820,16 @@ Proof.
 Qed.
 
 (* a nested ruleset: selector tokens, '{' *)
-Lemma step_nested p st0 o1 t1 b1 (sl : list wtok) o2 lb ts :
-  wf_state p (SQualifiedRuleDeclarationList :: st0) (src_toks ((o1, (t1, b1)) :: sl) ++ optws o2 ++ (TLeftBrace, lb) :: ts) ->
+Lemma step_nested p s st0 o1 t1 b1 (sl : list wtok) o2 lb ts : decl_ctx s ->
+  wf_state p (s :: st0) (src_toks ((o1, (t1, b1)) :: sl) ++ optws o2 ++ (TLeftBrace, lb) :: ts) ->
   nest_first (t1, b1) = true -> toks_ok 0 ((o1, (t1, b1)) :: sl) -> lv_after 0 ((o1, (t1, b1)) :: sl) = 0 ->
   exists p', parse_next p = POk (GBeginRuleset, p') /\ ptt p' = TWhitespace /\ pdata p' = [] /\
     pbuf p' = expected_sel ((o1, (t1, b1)) :: sl) /\ perr p' = false /\
-    wf_state p' (SQualifiedRuleDeclarationList :: SQualifiedRuleDeclarationList :: st0) ts.
+    wf_state p' (SQualifiedRuleDeclarationList :: s :: st0) ts.
 Proof.
-  intros Hw Hfirst Hok Hlv0. pose proof Hw as (Hi & Hl & _).
+  intros Hctx Hw Hfirst Hok Hlv0. pose proof Hw as (Hi & Hl & _).
   rewrite src_toks_cons in Hw, Hl. cbn [toks_ok fst snd] in Hok. destruct Hok as (Hv1 & Hok). cbn [lv_after fst snd] in Hlv0.
-  destruct (nest_head p st0 o1 t1 b1 _ Hw Hfirst) as (p0 & Hpn & Hi0 & Hl0 & Hb0 & Ht0 & Hd0 & Hst0 & Hlv & Hpe0 & Hkw0 & Hsty0 & Herr0).
+  destruct (nest_head p s st0 o1 t1 b1 _ Hctx Hw Hfirst) as (p0 & Hpn & Hi0 & Hl0 & Hb0 & Ht0 & Hd0 & Hst0 & Hlv & Hpe0 & Hkw0 & Hsty0 & Herr0).
   destruct (vtok_ok_inv _ _ Hv1) as (_ & _ & _ & _ & _ & _ & Hws1).
   assert (HN : exists f', next_fuel p = S (length sl + S f')).
   { pose proof (lexes_len _ _ Hi Hl) as Hlen. eapply fuel_split; [exact Hlen|].
@@ -936,15 +971,15 @@ Proof.
 Qed.
 
 (* a custom property  --name ':' raw-tokens ';'  inside a ruleset: the value is the exact source text *)
-Lemma step_custom p st0 o1 name o2 c (raw : list tok) s ts :
-  wf_state p (SQualifiedRuleDeclarationList :: st0)
-           (optws o1 ++ (TCustomPropertyName, name) :: optws o2 ++ (TColon, c) :: raw ++ (TSemicolon, s) :: ts) ->
+Lemma step_custom p s st0 o1 name o2 c (raw : list tok) tb ts : decl_ctx s -> term_ok tb ->
+  wf_state p (s :: st0)
+           (optws o1 ++ (TCustomPropertyName, name) :: optws o2 ++ (TColon, c) :: raw ++ tb :: ts) ->
   raw_ok 0 raw -> raw_lv 0 raw = 0 ->
   exists p', parse_next p = POk (GCustomProperty, p') /\ ptt p' = TCustomPropertyName /\ pdata p' = name /\
     pbuf p' = [(TCustomPropertyValue, concat (map snd raw))] /\ perr p' = false /\
-    wf_state p' (SQualifiedRuleDeclarationList :: st0) ts.
+    wf_after tb p' (s :: st0) ts.
 Proof.
-  intros (Hi & Hl & Hst & Hlv & Hpe & Hkw & Hsty) Hok Hlv0.
+  intros Hctx Hterm (Hi & Hl & Hst & Hlv & Hpe & Hkw & Hsty) Hok Hlv0.
   assert (HN : exists f', next_fuel p = S (length raw + S f')).
   { pose proof (lexes_len _ _ Hi Hl) as Hlen. eapply fuel_split; [exact Hlen|].
     rewrite app_length. cbn [length]. rewrite app_length. cbn [length]. rewrite app_length. cbn [length].
@@ -954,8 +989,7 @@ Proof.
   destruct (pop_token_ows (next_fuel p) true (set_err p false) o1 TCustomPropertyName name _ Hi Hkw Hl eq_refl HF)
     as (z1 & Hpop & Hl1 & Hi1).
   rewrite Hpop. cbn [pbind fst snd]. cbn [set_tok relex set_err pst]. rewrite Hst.
-  unfold parse_qualified_rule_declaration_list. rewrite skip_semicolons_none by (cbn; discriminate). cbn [pbind]. cbv zeta.
-  cbn [set_tok ptt]. evis. cbn [orb].
+  rewrite (decl_dispatch s st0 _ _ Hctx) by (cbn [set_tok ptt]; first [discriminate|reflexivity]).
   unfold parse_declaration_list. cbn [set_tok ptt]. evis. cbn [pbind].
   rewrite skip_semicolons_none by (cbn; discriminate). cbn [pbind set_tok ptt]. evis. cbn [pbind orb andb]. cbv zeta. cbn [set_tok ptt]. evis.
   cbn [orb andb]. rewrite ?andb_false_r. cbn [orb].
@@ -967,21 +1001,24 @@ Proof.
   assert (Hq : custom_loop (next_fuel p) q1 [] = custom_loop (length raw + S (S f')) q1 []).
   { rewrite HN. f_equal. clear. lia. }
   rewrite Hq. clear Hq.
-  destruct (custom_raw raw (S (S f')) q1 [] ((TSemicolon, s) :: ts)) as (q2 & Hrun & Hi3 & Hl3 & Hlv3 & Hs3).
+  destruct (custom_raw raw (S (S f')) q1 [] (tb :: ts)) as (q2 & Hrun & Hi3 & Hl3 & Hlv3 & Hs3).
   { exact Hi2. } { exact Hl2. } { change (plevel q1) with (plevel p). rewrite Hlv. exact Hok. }
-  rewrite Hrun. cbn [app].
+  rewrite Hrun. cbn [app]. destruct tb as [tt bb]. unfold term_ok in Hterm. cbn [fst] in Hterm.
   destruct (lexes_cons _ _ _ _ Hl3) as (z4 & Hn4 & Hl4 & _). pose proof (css_inv_next _ _ _ _ Hi3 Hn4) as Hi4.
   rewrite custom_loop_S. unfold lex_next. rewrite Hn4. cbn [pbind fst snd]. unfold ends_unit. cbn [set_pl plevel].
-  rewrite Hlv3. change (plevel q1) with (plevel p). rewrite Hlv, Hlv0. evis. cbn [Z.eqb orb andb].
+  rewrite Hlv3. change (plevel q1) with (plevel p). rewrite Hlv, Hlv0.
+  assert (He : ((is_t tt TSemicolon || is_t tt TRightBrace) && (0 =? 0)) || is_t tt TError = true) by (destruct Hterm as [->| ->]; reflexivity).
+  rewrite He.
   destruct Hs3 as (S1 & S2 & S3 & S4 & S5 & S6 & S7 & S8).
   eexists. split; [reflexivity|].
   cbn [push_buf set_buf set_prevend set_pl ptt pdata pbuf perr].
   split; [rewrite S3; reflexivity|]. split; [rewrite S4; reflexivity|]. split; [rewrite S8; reflexivity|].
   split; [rewrite S5; reflexivity|].
-  unfold wf_state. cbn [push_buf set_buf set_prevend set_pl pl pst plevel prevend keepws isstyle].
-  split; [exact Hi4|]. split; [exact Hl4|]. split; [rewrite S2; exact Hst|].
-  split; [rewrite Hlv3; change (plevel q1) with (plevel p); rewrite Hlv; exact Hlv0|]. split; [reflexivity|].
-  split; [rewrite S1; exact Hkw|rewrite S7; exact Hsty].
+  unfold wf_after, wf_state, wf_pend. cbn [fst]. destruct (is_t tt TRightBrace);
+    cbn [push_buf set_buf set_prevend set_pl pl pst plevel prevend keepws isstyle];
+    (split; [exact Hi4|]; split; [exact Hl4|]; split; [rewrite S2; exact Hst|];
+     split; [rewrite Hlv3; change (plevel q1) with (plevel p); rewrite Hlv; exact Hlv0|]; split; [reflexivity|];
+     split; [rewrite S1; exact Hkw|rewrite S7; exact Hsty]).
 Qed.
 
 (* --- at-rules -------------------------------------------------------------------------------------------------------- *)
@@ -1094,15 +1131,17 @@ Proof.
       eapply rest_same_trans; eassumption.
 Qed.
 
-Lemma at_semi f F p h o s ts first sk : css_inv (pl p) -> keepws p = false -> (1 <= F)%nat -> plevel p = 0 ->
-  lexes (pl p) (optws o ++ (TSemicolon, s) :: ts) ->
+Lemma at_term f F p h o tb ts first sk : css_inv (pl p) -> keepws p = false -> (1 <= F)%nat -> plevel p = 0 -> term_ok tb ->
+  lexes (pl p) (optws o ++ tb :: ts) ->
   exists z', css_inv z' /\ lexes z' ts /\
-    at_rule_loop (S f) F p h first sk = POk (GAtRule, set_prevend (relex p z' (isws o) false) false).
+    at_rule_loop (S f) F p h first sk = POk (GAtRule, set_prevend (relex p z' (isws o) false) (is_t (fst tb) TRightBrace)).
 Proof.
-  intros Hi Hkw HF Hlv Hl.
-  destruct (pop_token_ows F false p o TSemicolon s ts Hi Hkw Hl eq_refl HF) as (z' & Hpop & Hl' & Hi').
+  intros Hi Hkw HF Hlv Hterm Hl. destruct tb as [tt bb]. unfold term_ok in Hterm. cbn [fst] in *.
+  assert (Hp : plain_tok tt = true) by (destruct Hterm as [->| ->]; reflexivity).
+  destruct (pop_token_ows F false p o tt bb ts Hi Hkw Hl Hp HF) as (z' & Hpop & Hl' & Hi').
   exists z'. split; [exact Hi'|]. split; [exact Hl'|].
-  rewrite at_rule_loop_S, Hpop. cbn [pbind fst snd]. unfold ends_unit. cbn [relex plevel]. rewrite Hlv. evis. reflexivity.
+  rewrite at_rule_loop_S, Hpop. cbn [pbind fst snd]. unfold ends_unit. cbn [relex plevel]. rewrite Hlv.
+  destruct Hterm as [->| ->]; evis; reflexivity.
 Qed.
 
 Lemma at_brace f F p h o lb ts first sk : css_inv (pl p) -> keepws p = false -> (1 <= F)%nat -> plevel p = 0 ->
@@ -1116,36 +1155,77 @@ Proof.
   rewrite at_rule_loop_S, Hpop. cbn [pbind fst snd relex plevel]. rewrite Hlv. evis. reflexivity.
 Qed.
 
-(* Next on an at-keyword in a rule context: everything up to the loop of parseAtRule *)
-Lemma at_head p s st0 o1 name ts h : rule_ctx s -> wf_state p (s :: st0) (optws o1 ++ (TAtKeyword, name) :: ts) ->
-  at_rule_h (to_lower name) = POk h ->
-  exists p0, parse_next p = at_rule_loop (next_fuel p) (next_fuel p) p0 h true false /\ css_inv (pl p0) /\ lexes (pl p0) ts /\
+(* the name handling of parseAtRule never fails on an at-keyword (ToHash is total) *)
+Lemma index_byte_lt : forall l b i, index_byte l b = Some i -> 0 <= i < len l.
+Proof.
+  induction l as [|c l IH]; intros b i H; cbn [index_byte] in H; [discriminate|].
+  rewrite len_cons. pose proof (len_nonneg l). destruct (c =? b); [some_inv H; lia|].
+  destruct (index_byte l b) as [j|] eqn:E; [|discriminate]. some_inv H. specialize (IH _ _ E). lia.
+Qed.
+
+Lemma at_rule_h_total name0 : 2 <= len name0 -> exists h, at_rule_h name0 = POk h.
+Proof.
+  intros Hlen. unfold at_rule_h. replace (0 <? len name0) with true by lia.
+  destruct (peekz_in_range name0 1) as (c1 & Hc1); [lia|]. rewrite Hc1. cbn [of_opt pbind].
+  assert (Hplain : exists h, (if len name0 <? 1 then PPanic else of_opt (to_hash (skipz 1 name0))) = POk h).
+  { replace (len name0 <? 1) with false by lia. destruct (to_hash_total (skipz 1 name0)) as (h & ->). exists h. reflexivity. }
+  destruct (c1 =? 45); [|cbn [pbind]; exact Hplain].
+  destruct (index_byte (skipz 2 name0) 45) as [i|] eqn:Ei; [|cbn [pbind]; exact Hplain].
+  cbn [pbind]. pose proof (index_byte_lt _ _ _ Ei) as Hi. rewrite len_skipz in Hi by lia.
+  replace (len (skipz (i + 2) name0) <? 1) with false by (rewrite len_skipz by lia; lia).
+  destruct (to_hash_total (skipz 1 (skipz (i + 2) name0))) as (h & ->). exists h. reflexivity.
+Qed.
+
+Lemma len_to_lower b : len (to_lower b) = len b.
+Proof. unfold to_lower, len. rewrite map_length. reflexivity. Qed.
+
+(* the state of the block of an at-rule: by the hash of its name *)
+Definition at_st (name : list Z) : pstate :=
+  match at_rule_h (to_lower name) with POk h => at_state h | _ => SAtRuleUnknown end.
+
+Lemma lexes_at_len z o name ts : css_inv z -> lexes z (optws o ++ (TAtKeyword, name) :: ts) -> 2 <= len name.
+Proof.
+  assert (H0 : forall z0, css_inv z0 -> lexes z0 ((TAtKeyword, name) :: ts) -> 2 <= len name).
+  { intros z0 Hi Hl. destruct (lexes_cons _ _ _ _ Hl) as (z' & Hn & _ & He).
+    destruct (css_next_step z0 Hi) as [(_ & Hn')|(ty & b0 & z2 & Hn' & _ & _ & _ & _ & _ & Hat)]; rewrite Hn in Hn'.
+    - discriminate.
+    - assert (ty = TAtKeyword) by congruence. assert (b0 = name) by congruence. subst. apply Hat. reflexivity. }
+  intros Hi Hl. destruct o as [wb|]; cbn [optws app] in Hl; [|eapply H0; eassumption].
+  destruct (lexes_cons _ _ _ _ Hl) as (z1 & Hn1 & Hl1 & _). eapply (H0 z1); [eapply css_inv_next; [exact Hi|exact Hn1]|exact Hl1].
+Qed.
+
+(* Next on an at-keyword (anywhere but inside an unknown at-rule block): everything up to the loop of parseAtRule *)
+Lemma at_head p s st0 o1 name ts : s <> SAtRuleUnknown -> s <> SDeclarationList ->
+  wf_state p (s :: st0) (optws o1 ++ (TAtKeyword, name) :: ts) ->
+  exists h p0, at_rule_h (to_lower name) = POk h /\
+    parse_next p = at_rule_loop (next_fuel p) (next_fuel p) p0 h true false /\ css_inv (pl p0) /\ lexes (pl p0) ts /\
     pbuf p0 = [] /\ ptt p0 = TAtKeyword /\ pdata p0 = to_lower name /\ pst p0 = s :: st0 /\
     plevel p0 = 0 /\ prevend p0 = false /\ keepws p0 = false /\ isstyle p0 = true /\ perr p0 = false.
 Proof.
-  intros Hctx (Hi & Hl & Hst & Hlv & Hpe & Hkw & Hsty) Hh.
+  intros Hs1 Hs2 (Hi & Hl & Hst & Hlv & Hpe & Hkw & Hsty).
+  destruct (at_rule_h_total (to_lower name)) as (h & Hh); [rewrite len_to_lower; eapply lexes_at_len; eassumption|].
+  exists h.
   unfold parse_next. cbv zeta. change (prevend (set_err p false)) with (prevend p). rewrite Hpe.
   destruct (pop_token_ows (next_fuel p) true (set_err p false) o1 TAtKeyword name ts Hi Hkw Hl eq_refl (next_fuel_pos p Hi))
     as (z1 & Hpop & Hl1 & Hi1).
   rewrite Hpop. cbn [pbind fst snd]. cbn [set_tok relex set_err pst]. rewrite Hst.
-  rewrite (at_dispatch s st0 _ _ Hctx) by reflexivity.
+  rewrite (at_dispatch s st0 _ _ Hs1 Hs2) by reflexivity.
   rewrite parse_at_rule_eq. cbn [set_tok pdata ptt]. rewrite Hh. cbn [pbind].
-  eexists. split; [reflexivity|].
+  eexists. split; [reflexivity|]. split; [reflexivity|].
   cbn [set_buf set_tok relex set_err pl pbuf ptt pdata pst plevel prevend keepws isstyle perr].
   split; [exact Hi1|]. split; [exact Hl1|]. repeat split; assumption.
 Qed.
 
-(* an at-rule: at-keyword, prelude tokens, then ';' (AtRule) or '{' (BeginAtRule) *)
-Lemma step_at p s st0 o1 name (pre : list wtok) o2 (tb : tok) ts h : rule_ctx s ->
+(* an at-rule: at-keyword, prelude tokens, then ';' or the '}' of the enclosing block (AtRule), or '{' (BeginAtRule) *)
+Lemma step_at p s st0 o1 name (pre : list wtok) o2 (tb : tok) ts : s <> SAtRuleUnknown -> s <> SDeclarationList ->
   wf_state p (s :: st0) (optws o1 ++ (TAtKeyword, name) :: src_toks pre ++ optws o2 ++ tb :: ts) ->
-  at_rule_h (to_lower name) = POk h -> toks_ok 0 pre -> lv_after 0 pre = 0 ->
-  (fst tb = TSemicolon \/ fst tb = TLeftBrace) ->
-  exists p', parse_next p = POk (if is_t (fst tb) TSemicolon then GAtRule else GBeginAtRule, p') /\
+  toks_ok 0 pre -> lv_after 0 pre = 0 -> (term_ok tb \/ fst tb = TLeftBrace) ->
+  exists p', parse_next p = POk (if is_t (fst tb) TLeftBrace then GBeginAtRule else GAtRule, p') /\
     ptt p' = TAtKeyword /\ pdata p' = to_lower name /\ pbuf p' = at_buf true false pre /\ perr p' = false /\
-    wf_state p' (if is_t (fst tb) TSemicolon then s :: st0 else at_state h :: s :: st0) ts.
+    (if is_t (fst tb) TLeftBrace then wf_state p' (at_st name :: s :: st0) ts else wf_after tb p' (s :: st0) ts).
 Proof.
-  intros Hctx Hw Hh Hok Hlv0 Htb. pose proof Hw as (Hi & Hl & _).
-  destruct (at_head p s st0 o1 name _ h Hctx Hw Hh) as (p0 & Hpn & Hi0 & Hl0 & Hb0 & Ht0 & Hd0 & Hst0 & Hlv & Hpe0 & Hkw0 & Hsty0 & Herr0).
+  intros Hs1 Hs2 Hw Hok Hlv0 Htb. pose proof Hw as (Hi & Hl & _).
+  destruct (at_head p s st0 o1 name _ Hs1 Hs2 Hw) as (h & p0 & Hh & Hpn & Hi0 & Hl0 & Hb0 & Ht0 & Hd0 & Hst0 & Hlv & Hpe0 & Hkw0 & Hsty0 & Herr0).
   assert (HN : exists f', next_fuel p = S (length pre + S f')).
   { pose proof (lexes_len _ _ Hi Hl) as Hlen. eapply fuel_split; [exact Hlen|].
     rewrite app_length. cbn [length]. rewrite app_length. rewrite app_length. cbn [length]. pose proof (src_toks_len pre) as Hsl.
@@ -1155,31 +1235,41 @@ Proof.
                          at_rule_loop (length pre + S (S f')) (next_fuel p) q h true false).
   { intros q. rewrite HN at 1. f_equal. clear. lia. }
   rewrite Hpn, Hq. clear Hq.
-  destruct (at_tokens (next_fuel p) h (optws o2 ++ tb :: ts) HF pre (S (S f')) p0 true false) as (p2 & first' & sk' & Hrun & Hi2 & Hl2 & Hb2 & Hlv2 & Hs2).
+  destruct (at_tokens (next_fuel p) h (optws o2 ++ tb :: ts) HF pre (S (S f')) p0 true false) as (p2 & first' & sk' & Hrun & Hi2 & Hl2 & Hb2 & Hlv2 & Hsm).
   { exact Hi0. } { exact Hkw0. } { exact Hl0. } { rewrite Hlv. exact Hok. }
-  rewrite Hrun. destruct Hs2 as (S1 & S2 & S3 & S4 & S5 & S6 & S7).
+  rewrite Hrun. destruct Hsm as (S1 & S2 & S3 & S4 & S5 & S6 & S7).
   assert (Hk2 : keepws p2 = false) by (rewrite S1; exact Hkw0).
   assert (Hl20 : plevel p2 = 0) by (rewrite Hlv2, Hlv; exact Hlv0).
-  destruct tb as [tt bb]. cbn [fst] in *. destruct Htb as [-> | ->]; evis.
-  - destruct (at_semi (S f') (next_fuel p) p2 h o2 bb ts first' sk' Hi2 Hk2 HF Hl20 Hl2) as (z3 & Hi3 & Hl3 & Heq3).
+  destruct Htb as [Hterm|Hlb].
+  - assert (Hnlb : is_t (fst tb) TLeftBrace = false) by (destruct tb as [tt bb]; destruct Hterm as [E|E]; cbn [fst] in *; rewrite E; reflexivity).
+    rewrite Hnlb.
+    destruct (at_term (S f') (next_fuel p) p2 h o2 tb ts first' sk' Hi2 Hk2 HF Hl20 Hterm Hl2) as (z3 & Hi3 & Hl3 & Heq3).
     rewrite Heq3. eexists. split; [reflexivity|]. cbn [set_prevend relex ptt pdata pbuf perr].
     split; [rewrite S3; exact Ht0|]. split; [rewrite S4; exact Hd0|]. split; [rewrite Hb2, Hb0; reflexivity|].
     split; [rewrite S5; exact Herr0|].
-    unfold wf_state. cbn [set_prevend relex pl pst plevel prevend keepws isstyle].
-    split; [exact Hi3|]. split; [exact Hl3|]. split; [rewrite S2; exact Hst0|]. split; [exact Hl20|]. split; [reflexivity|].
-    split; [exact Hk2|rewrite S7; exact Hsty0].
-  - destruct (at_brace (S f') (next_fuel p) p2 h o2 bb ts first' sk' Hi2 Hk2 HF Hl20 Hl2) as (z3 & Hi3 & Hl3 & Heq3).
+    unfold wf_after, wf_state, wf_pend. destruct (is_t (fst tb) TRightBrace); cbn [set_prevend relex pl pst plevel prevend keepws isstyle];
+      (split; [exact Hi3|]; split; [exact Hl3|]; split; [rewrite S2; exact Hst0|]; split; [exact Hl20|]; split; [reflexivity|];
+       split; [exact Hk2|rewrite S7; exact Hsty0]).
+  - destruct tb as [tt bb]. cbn [fst] in *. subst tt. evis.
+    destruct (at_brace (S f') (next_fuel p) p2 h o2 bb ts first' sk' Hi2 Hk2 HF Hl20 Hl2) as (z3 & Hi3 & Hl3 & Heq3).
     rewrite Heq3. eexists. split; [reflexivity|]. cbn [push_st set_st relex ptt pdata pbuf perr].
     split; [rewrite S3; exact Ht0|]. split; [rewrite S4; exact Hd0|]. split; [rewrite Hb2, Hb0; reflexivity|].
     split; [rewrite S5; exact Herr0|].
-    unfold wf_state. cbn [push_st set_st relex pl pst plevel prevend keepws isstyle].
+    unfold wf_state, at_st. rewrite Hh. cbn [push_st set_st relex pl pst plevel prevend keepws isstyle].
     split; [exact Hi3|]. split; [exact Hl3|]. split; [rewrite S2, Hst0; reflexivity|]. split; [exact Hl20|]. split; [rewrite S6; exact Hpe0|].
     split; [exact Hk2|rewrite S7; exact Hsty0].
 Qed.
 
-(* the '}' of the block of @media, @supports, ... *)
-Lemma step_endat p st0 o rb ts : wf_state p (SAtRuleRuleList :: st0) (optws o ++ (TRightBrace, rb) :: ts) ->
-  exists p', parse_next p = POk (GEndAtRule, p') /\ ptt p' = TRightBrace /\ pdata p' = rb /\ perr p' = false /\
+(* --- closing a block --------------------------------------------------------------------------------------------------- *)
+(* the open blocks: a ruleset, the rule block of @media ..., the declaration block of @font-face / @page *)
+Inductive frame := FRule | FAtRules | FAtDecls.
+Definition frame_state (f : frame) : pstate :=
+  match f with FRule => SQualifiedRuleDeclarationList | FAtRules => SAtRuleRuleList | FAtDecls => SAtRuleDeclarationList end.
+Definition close_g (f : frame) : gtype := match f with FRule => GEndRuleset | _ => GEndAtRule end.
+
+(* the '}' of a block, read now ... *)
+Lemma step_close p f st0 o rb ts : wf_state p (frame_state f :: st0) (optws o ++ (TRightBrace, rb) :: ts) ->
+  exists p', parse_next p = POk (close_g f, p') /\ ptt p' = TRightBrace /\ pdata p' = rb /\ perr p' = false /\
     wf_state p' st0 ts.
 Proof.
   intros (Hi & Hl & Hst & Hlv & Hpe & Hkw & Hsty).
@@ -1188,30 +1278,56 @@ Proof.
     as (z' & Hpop & Hl' & Hi').
   rewrite Hpop. cbn [pbind fst snd].
   cbn [set_tok relex set_err pst]. rewrite Hst.
-  unfold parse_at_rule_rule_list. cbn [set_tok ptt]. evis. cbn [orb]. unfold pop_st. cbn [set_tok relex set_err pst]. rewrite Hst. cbn [pbind].
-  eexists. split; [reflexivity|]. cbn [set_st set_tok relex set_err ptt pdata perr].
-  split; [reflexivity|]. split; [reflexivity|]. split; [reflexivity|].
-  unfold wf_state. cbn [set_st set_tok relex set_err pl pst plevel prevend keepws isstyle].
-  split; [exact Hi'|]. split; [exact Hl'|]. auto.
+  destruct f; cbn [frame_state close_g];
+    [unfold parse_qualified_rule_declaration_list; rewrite skip_semicolons_none by (cbn; discriminate); cbn [pbind]; cbv zeta
+    |unfold parse_at_rule_rule_list
+    |unfold parse_at_rule_declaration_list; rewrite skip_semicolons_none by (cbn; discriminate); cbn [pbind]; cbv zeta];
+    cbn [set_tok ptt]; evis; cbn [orb]; unfold pop_st; cbn [set_tok relex set_err pst]; rewrite Hst; cbn [pbind];
+    (eexists; split; [reflexivity|]; cbn [set_st set_tok relex set_err ptt pdata perr];
+     split; [reflexivity|]; split; [reflexivity|]; split; [reflexivity|];
+     unfold wf_state; cbn [set_st set_tok relex set_err pl pst plevel prevend keepws isstyle];
+     split; [exact Hi'|]; split; [exact Hl'|]; auto).
+Qed.
+
+(* ... or already read by the previous unit (p.prevEnd): the unit reports the synthesised "}" *)
+Lemma step_close_pend p f st0 ts : wf_pend p (frame_state f :: st0) ts ->
+  exists p', parse_next p = POk (close_g f, p') /\ ptt p' = TRightBrace /\ pdata p' = [125] /\ perr p' = false /\
+    wf_state p' st0 ts.
+Proof.
+  intros (Hi & Hl & Hst & Hlv & Hpe & Hkw & Hsty).
+  unfold parse_next. cbv zeta. change (prevend (set_err p false)) with (prevend p). rewrite Hpe. cbn [pbind].
+  cbn [set_prevend set_tok set_err pst]. rewrite Hst.
+  destruct f; cbn [frame_state close_g];
+    [unfold parse_qualified_rule_declaration_list; rewrite skip_semicolons_none by (cbn; discriminate); cbn [pbind]; cbv zeta
+    |unfold parse_at_rule_rule_list
+    |unfold parse_at_rule_declaration_list; rewrite skip_semicolons_none by (cbn; discriminate); cbn [pbind]; cbv zeta];
+    cbn [set_prevend set_tok ptt]; evis; cbn [orb]; unfold pop_st; cbn [set_prevend set_tok set_err pst]; rewrite Hst; cbn [pbind];
+    (eexists; split; [reflexivity|]; cbn [set_st set_prevend set_tok set_err ptt pdata perr];
+     split; [reflexivity|]; split; [reflexivity|]; split; [reflexivity|];
+     unfold wf_state; cbn [set_st set_prevend set_tok set_err pl pst plevel prevend keepws isstyle];
+     split; [exact Hi|]; split; [exact Hl|]; auto).
 Qed.
 
 (* --- the grammar and the units it denotes ------------------------------------------------------------------------ *)
-(* w1 property w2 ':' value-tokens (each with the whitespace before it) w4 ';' *)
-Record decl_t := mkDecl { d_w1 : ws_t; d_prop : list Z; d_w2 : ws_t; d_vals : list wtok; d_w4 : ws_t }.
+(* w1 property w2 ':' value-tokens (each with the whitespace before it), then  w4 ';'  (d_semi) or nothing: the
+   declaration is then ended by the '}' of its block, which is the next event *)
+Record decl_t := mkDecl { d_w1 : ws_t; d_prop : list Z; d_w2 : ws_t; d_vals : list wtok; d_w4 : ws_t; d_semi : bool }.
 
-(* a stylesheet in document order: a ruleset is  EOpen selector-tokens w2 '{'  ...  EClose w3 '}'  with declarations and
-   (nested) rulesets between them *)
-Inductive ev := EDecl (d : decl_t) | EOpen (sel : list wtok) (w2 : ws_t) | EClose (w3 : ws_t)
-  | EComment (w : ws_t) (b : list Z)                 (* a comment at the top level *)
-  | EToken (w : ws_t) (t : ttype) (b : list Z)       (* CDO or CDC at the top level *)
-  | ECustom (w1 : ws_t) (name : list Z) (w2 : ws_t) (raw : list tok)    (* --name ':' raw tokens ';' inside a ruleset *)
-  | EAtRule (w1 : ws_t) (name : list Z) (pre : list wtok) (w2 : ws_t) (h : Z)        (* @name prelude ';' *)
-  | EBeginAtRule (w1 : ws_t) (name : list Z) (pre : list wtok) (w2 : ws_t) (h : Z)   (* @name prelude '{' *)
-  | EEndAtRule (w3 : ws_t).                                                           (* the '}' of an at-rule block *)
+(* a stylesheet in document order *)
+Inductive ev :=
+  | EDecl (d : decl_t)
+  | EOpen (sel : list wtok) (w2 : ws_t)                (* selector tokens w2 '{' *)
+  | EClose (w3 : ws_t)                                   (* w3 '}' of a ruleset *)
+  | EComment (w : ws_t) (b : list Z)                     (* a comment at the top level *)
+  | EToken (w : ws_t) (t : ttype) (b : list Z)           (* CDO or CDC at the top level *)
+  | ECustom (w1 : ws_t) (name : list Z) (w2 : ws_t) (raw : list tok) (semi : bool)   (* --name ':' raw tokens [';'] *)
+  | EAtRule (w1 : ws_t) (name : list Z) (pre : list wtok) (w2 : ws_t) (semi : bool)   (* @name prelude [w2 ';'] *)
+  | EBeginAtRule (w1 : ws_t) (name : list Z) (pre : list wtok) (w2 : ws_t)            (* @name prelude w2 '{' *)
+  | EEndAtRule (w3 : ws_t).                                                            (* w3 '}' of an at-rule block *)
 
+Definition term_toks (w : ws_t) (semi : bool) : list tok := if semi then optws w ++ [(TSemicolon, [59])] else [].
 Definition decl_toks (d : decl_t) : list tok :=
-  optws (d_w1 d) ++ (TIdent, d_prop d) :: optws (d_w2 d) ++ (TColon, [58]) :: src_toks (d_vals d) ++
-  optws (d_w4 d) ++ [(TSemicolon, [59])].
+  optws (d_w1 d) ++ (TIdent, d_prop d) :: optws (d_w2 d) ++ (TColon, [58]) :: src_toks (d_vals d) ++ term_toks (d_w4 d) (d_semi d).
 Definition ev_toks (e : ev) : list tok :=
   match e with
   | EDecl d => decl_toks d
@@ -1219,9 +1335,10 @@ Definition ev_toks (e : ev) : list tok :=
   | EClose w3 => optws w3 ++ [(TRightBrace, [125])]
   | EComment w b => optws w ++ [(TComment, b)]
   | EToken w t b => optws w ++ [(t, b)]
-  | ECustom w1 name w2 raw => optws w1 ++ (TCustomPropertyName, name) :: optws w2 ++ (TColon, [58]) :: raw ++ [(TSemicolon, [59])]
-  | EAtRule w1 name pre w2 _ => optws w1 ++ (TAtKeyword, name) :: src_toks pre ++ optws w2 ++ [(TSemicolon, [59])]
-  | EBeginAtRule w1 name pre w2 _ => optws w1 ++ (TAtKeyword, name) :: src_toks pre ++ optws w2 ++ [(TLeftBrace, [123])]
+  | ECustom w1 name w2 raw semi =>
+      optws w1 ++ (TCustomPropertyName, name) :: optws w2 ++ (TColon, [58]) :: raw ++ (if semi then [(TSemicolon, [59])] else [])
+  | EAtRule w1 name pre w2 semi => optws w1 ++ (TAtKeyword, name) :: src_toks pre ++ term_toks w2 semi
+  | EBeginAtRule w1 name pre w2 => optws w1 ++ (TAtKeyword, name) :: src_toks pre ++ optws w2 ++ [(TLeftBrace, [123])]
   | EEndAtRule w3 => optws w3 ++ [(TRightBrace, [125])]
   end.
 
@@ -1229,27 +1346,36 @@ Definition decl_ok (d : decl_t) : Prop := d_vals d <> [] /\ toks_ok 0 (d_vals d)
 (* a selector at the top level / of a nested ruleset *)
 Definition sel_ok (first : tok -> bool) (l : list wtok) : Prop :=
   match l with x :: _ => first (snd x) = true | [] => False end /\ toks_ok 0 l /\ lv_after 0 l = 0.
-(* the open blocks, innermost first: a ruleset, or the rule block of @media, @supports, @layer, @keyframes, @document *)
-Inductive frame := FRule | FAtRules.
-Definition rule_top (fs : list frame) : Prop := match fs with FRule :: _ => False | _ => True end.
-(* declarations and custom properties only inside a ruleset; rulesets and at-rules at the top level and inside an at-rule
-   block (nested rulesets also inside a ruleset); every '}' closes the innermost open block; all closed at the end; h is
-   the hash parseAtRule computes for the name and decides the kind of block *)
+
+Definition decl_top (fs : list frame) : Prop := match fs with (FRule | FAtDecls) :: _ => True | _ => False end.
+Definition closer (e : ev) : Prop := match e with EClose _ | EEndAtRule _ => True | _ => False end.
+Definition closer_next (r : list ev) : Prop := match r with e :: _ => closer e | [] => False end.
+(* ... directly, without whitespace: whitespace before the '}' would belong to the value of a custom property *)
+Definition closer_tight (r : list ev) : Prop := match r with (EClose None | EEndAtRule None) :: _ => True | _ => False end.
+
+(* fs = the open blocks, innermost first.  Declarations and custom properties inside a ruleset or the block of
+   @font-face / @page; rulesets anywhere (nested ones inside such blocks); at-rules anywhere, the kind of their block
+   decided by the hash of the name (at_st); comments, CDO and CDC at the top level; a unit without its ';' must be
+   followed by the '}' of its block; every '}' closes the innermost block; all closed at the end *)
 Fixpoint evs_ok (fs : list frame) (l : list ev) : Prop :=
   match l with
   | [] => fs = []
-  | EDecl d :: r => match fs with FRule :: _ => decl_ok d /\ evs_ok fs r | _ => False end
-  | EOpen sel _ :: r => sel_ok (match fs with FRule :: _ => nest_first | _ => fun x => sel_first (fst x) end) sel /\ evs_ok (FRule :: fs) r
+  | EDecl d :: r => decl_top fs /\ decl_ok d /\ (d_semi d = false -> closer_next r) /\ evs_ok fs r
+  | EOpen sel _ :: r =>
+      sel_ok (match fs with (FRule | FAtDecls) :: _ => nest_first | _ => fun x => sel_first (fst x) end) sel /\ evs_ok (FRule :: fs) r
   | EClose _ :: r => match fs with FRule :: fs' => evs_ok fs' r | _ => False end
   | EComment _ _ :: r => fs = [] /\ evs_ok fs r
   | EToken _ t _ :: r => fs = [] /\ is_cd t = true /\ evs_ok fs r
-  | ECustom _ _ _ raw :: r => match fs with FRule :: _ => raw_ok 0 raw /\ raw_lv 0 raw = 0 /\ evs_ok fs r | _ => False end
-  | EAtRule _ name pre _ h :: r =>
-      rule_top fs /\ at_rule_h (to_lower name) = POk h /\ toks_ok 0 pre /\ lv_after 0 pre = 0 /\ evs_ok fs r
-  | EBeginAtRule _ name pre _ h :: r =>
-      rule_top fs /\ at_rule_h (to_lower name) = POk h /\ at_state h = SAtRuleRuleList /\ toks_ok 0 pre /\ lv_after 0 pre = 0 /\
-      evs_ok (FAtRules :: fs) r
-  | EEndAtRule _ :: r => match fs with FAtRules :: fs' => evs_ok fs' r | _ => False end
+  | ECustom _ _ _ raw semi :: r => decl_top fs /\ raw_ok 0 raw /\ raw_lv 0 raw = 0 /\ (semi = false -> closer_tight r) /\ evs_ok fs r
+  | EAtRule _ _ pre _ semi :: r => toks_ok 0 pre /\ lv_after 0 pre = 0 /\ (semi = false -> fs <> [] /\ closer_next r) /\ evs_ok fs r
+  | EBeginAtRule _ name pre _ :: r =>
+      toks_ok 0 pre /\ lv_after 0 pre = 0 /\
+      match at_st name with
+      | SAtRuleRuleList => evs_ok (FAtRules :: fs) r
+      | SAtRuleDeclarationList => evs_ok (FAtDecls :: fs) r
+      | _ => False
+      end
+  | EEndAtRule _ :: r => match fs with (FAtRules | FAtDecls) :: fs' => evs_ok fs' r | _ => False end
   end.
 
 (* what the caller sees of one call: grammar type, token type, data, and Values() for the units that set them *)
@@ -1268,9 +1394,9 @@ Definition ev_unit (e : ev) : unit_t :=
   | EClose _ => (GEndRuleset, TRightBrace, [125], [])
   | EComment _ b => (GComment, TComment, b, [])
   | EToken _ t b => (GToken, t, b, [])
-  | ECustom _ name _ raw => (GCustomProperty, TCustomPropertyName, name, [(TCustomPropertyValue, concat (map snd raw))])
+  | ECustom _ name _ raw _ => (GCustomProperty, TCustomPropertyName, name, [(TCustomPropertyValue, concat (map snd raw))])
   | EAtRule _ name pre _ _ => (GAtRule, TAtKeyword, to_lower name, at_buf true false pre)
-  | EBeginAtRule _ name pre _ _ => (GBeginAtRule, TAtKeyword, to_lower name, at_buf true false pre)
+  | EBeginAtRule _ name pre _ => (GBeginAtRule, TAtKeyword, to_lower name, at_buf true false pre)
   | EEndAtRule _ => (GEndAtRule, TRightBrace, [125], [])
   end.
 
@@ -1284,86 +1410,168 @@ Qed.
 
 Definition no_err (tr : list (gtype * parser)) : Prop := Forall (fun r => perr (snd r) = false) tr.
 
-Definition frame_state (f : frame) : pstate := match f with FRule => SQualifiedRuleDeclarationList | FAtRules => SAtRuleRuleList end.
 Definition stack (fs : list frame) : list pstate := map frame_state fs ++ [SStylesheet].
 
-Lemma rule_top_ctx fs : rule_top fs -> exists s st0, stack fs = s :: st0 /\ rule_ctx s.
+Lemma stack_top fs : exists s st0, stack fs = s :: st0 /\ s <> SAtRuleUnknown /\ s <> SDeclarationList /\
+  (decl_top fs -> decl_ctx s) /\ (~ decl_top fs -> rule_ctx s).
 Proof.
-  destruct fs as [|[|] fs]; cbn [rule_top]; intros H; [|contradiction|].
-  - exists SStylesheet, []. split; [reflexivity|left; reflexivity].
-  - exists SAtRuleRuleList, (stack fs). split; [reflexivity|right; reflexivity].
+  destruct fs as [|[| |] fs]; unfold stack; cbn [map frame_state app decl_top]; do 2 eexists; (split; [reflexivity|]);
+    (split; [discriminate|]); (split; [discriminate|]); split; intros H; try contradiction; try (exfalso; apply H; exact I);
+    unfold decl_ctx, rule_ctx; auto.
 Qed.
 
-Lemma evs_run : forall evs fs p rest,
+(* a unit that was ended by the '}' of its block, then the closing unit of that block *)
+Lemma close_pending fs e2 evs' p1 L : closer e2 -> evs_ok fs (e2 :: evs') -> wf_pend p1 (stack fs) L ->
+  exists fs' g2 p2, parse_next p1 = POk (g2, p2) /\ view (g2, p2) = ev_unit e2 /\ perr p2 = false /\
+    wf_state p2 (stack fs') L /\ evs_ok fs' evs'.
+Proof.
+  intros Hc Hok Hw. destruct e2; try contradiction; cbn [evs_ok] in Hok.
+  - destruct fs as [|[| |] fs]; try contradiction.
+    destruct (step_close_pend p1 FRule (stack fs) L Hw) as (p2 & Hn & Ht & Hd & He & Hw2).
+    exists fs, GEndRuleset, p2. split; [exact Hn|]. split; [unfold view; cbn [fst snd ev_unit]; rewrite Ht, Hd; reflexivity|]. auto.
+  - destruct fs as [|[| |] fs]; try contradiction.
+    + destruct (step_close_pend p1 FAtRules (stack fs) L Hw) as (p2 & Hn & Ht & Hd & He & Hw2).
+      exists fs, GEndAtRule, p2. split; [exact Hn|]. split; [unfold view; cbn [fst snd ev_unit]; rewrite Ht, Hd; reflexivity|]. auto.
+    + destruct (step_close_pend p1 FAtDecls (stack fs) L Hw) as (p2 & Hn & Ht & Hd & He & Hw2).
+      exists fs, GEndAtRule, p2. split; [exact Hn|]. split; [unfold view; cbn [fst snd ev_unit]; rewrite Ht, Hd; reflexivity|]. auto.
+Qed.
+
+Lemma closer_toks e2 : closer e2 -> exists w3, ev_toks e2 = optws w3 ++ [(TRightBrace, [125])].
+Proof. destruct e2; try contradiction; intros _; eexists; reflexivity. Qed.
+
+Lemma evs_run_n : forall n evs fs p rest, (length evs <= n)%nat ->
   wf_state p (stack fs) (concat (map ev_toks evs) ++ rest) -> evs_ok fs evs ->
   exists tr, parse_run (length evs) p = POk tr /\ map view tr = map ev_unit evs /\ no_err tr /\
     wf_state (last_state p tr) [SStylesheet] rest.
 Proof.
-  induction evs as [|e evs IH]; intros fs p rest Hw Hok.
-  - cbn [evs_ok] in Hok. subst fs. exists []. cbn [map concat length parse_run app] in *.
-    split; [reflexivity|]. split; [reflexivity|]. split; [constructor|exact Hw].
-  - assert (Hcons : forall g p1 (u : unit_t) fs', parse_next p = POk (g, p1) -> view (g, p1) = u -> perr p1 = false ->
-                    wf_state p1 (stack fs') (concat (map ev_toks evs) ++ rest) -> evs_ok fs' evs -> u = ev_unit e ->
-                    exists tr, parse_run (length (e :: evs)) p = POk tr /\ map view tr = map ev_unit (e :: evs) /\ no_err tr /\
-                      wf_state (last_state p tr) [SStylesheet] rest).
-    { intros g p1 u fs' Hn Hv He Hw1 Hok1 Hu.
-      destruct (IH fs' p1 rest Hw1 Hok1) as (tr & Hrun & Hview & Hne & Hlast).
-      exists ((g, p1) :: tr). split; [|split; [|split]].
-      - cbn [length parse_run]. rewrite Hn. cbn [pbind snd]. rewrite Hrun. reflexivity.
-      - cbn [map]. rewrite Hview, Hv, Hu. reflexivity.
-      - constructor; [exact He|exact Hne].
-      - rewrite last_state_cons. exact Hlast. }
-    destruct e as [[w1 prop w2 vl w4]|sel w2|w3|wc cb|wt tt tb|cw1 cname cw2 craw|aw1 aname apre aw2 ah|bw1 bname bpre bw2 bh|ew3];
-      cbn [evs_ok] in Hok; cbn [map concat ev_toks] in Hw.
-    + destruct fs as [|[|] fs]; try contradiction. destruct Hok as ((Hv & Hp & Hq) & Hok). cbn [d_vals] in *.
-      unfold stack in Hw. cbn [map frame_state app] in Hw.
-      unfold decl_toks in Hw. cbn [d_w1 d_prop d_w2 d_vals d_w4] in Hw. repeat (rewrite <- app_assoc in Hw; cbn [app] in Hw).
-      destruct (step_decl p _ w1 prop w2 [58] vl w4 [59] _ Hw Hv Hp Hq) as (p1 & Hn & Ht & Hdd & Hb & He & Hw1).
-      eapply (Hcons _ p1 _ (FRule :: fs) Hn eq_refl He Hw1 Hok). unfold view. cbn [fst snd ev_unit d_prop d_vals]. rewrite Ht, Hdd, Hb. reflexivity.
-    + destruct Hok as ((Hs1 & Hs2 & Hs3) & Hok). destruct sel as [|[o1 [t1 b1]] sl]; [contradiction|]. cbn [fst snd] in Hs1.
+  induction n as [|n IH]; intros evs fs p rest Hlen Hw Hok.
+  { destruct evs; [|cbn in Hlen; lia]. cbn [evs_ok] in Hok. subst fs. exists []. cbn [map concat length parse_run app] in *.
+    split; [reflexivity|]. split; [reflexivity|]. split; [constructor|exact Hw]. }
+  destruct evs as [|e evs].
+  { cbn [evs_ok] in Hok. subst fs. exists []. cbn [map concat length parse_run app] in *.
+    split; [reflexivity|]. split; [reflexivity|]. split; [constructor|exact Hw]. }
+  cbn [length] in Hlen.
+  assert (Hcons : forall g p1 (u : unit_t) fs', parse_next p = POk (g, p1) -> view (g, p1) = u -> perr p1 = false ->
+                  wf_state p1 (stack fs') (concat (map ev_toks evs) ++ rest) -> evs_ok fs' evs -> u = ev_unit e ->
+                  exists tr, parse_run (length (e :: evs)) p = POk tr /\ map view tr = map ev_unit (e :: evs) /\ no_err tr /\
+                    wf_state (last_state p tr) [SStylesheet] rest).
+  { intros g p1 u fs' Hn Hv He Hw1 Hok1 Hu.
+    destruct (IH evs fs' p1 rest ltac:(lia) Hw1 Hok1) as (tr & Hrun & Hview & Hne & Hlast).
+    exists ((g, p1) :: tr). split; [|split; [|split]].
+    - cbn [length parse_run]. rewrite Hn. cbn [pbind snd]. rewrite Hrun. reflexivity.
+    - cbn [map]. rewrite Hview, Hv, Hu. reflexivity.
+    - constructor; [exact He|exact Hne].
+    - rewrite last_state_cons. exact Hlast. }
+  (* the unit is ended by the '}' of its block: two calls *)
+  assert (Hcons2 : forall g p1 e2 evs', evs = e2 :: evs' -> closer e2 -> parse_next p = POk (g, p1) -> view (g, p1) = ev_unit e ->
+                   perr p1 = false -> wf_pend p1 (stack fs) (concat (map ev_toks evs') ++ rest) -> evs_ok fs evs ->
+                   exists tr, parse_run (length (e :: evs)) p = POk tr /\ map view tr = map ev_unit (e :: evs) /\ no_err tr /\
+                     wf_state (last_state p tr) [SStylesheet] rest).
+  { intros g p1 e2 evs' -> Hc Hn Hv He Hw1 Hok1.
+    destruct (close_pending fs e2 evs' p1 _ Hc Hok1 Hw1) as (fs' & g2 & p2 & Hn2 & Hv2 & He2 & Hw2 & Hok2).
+    cbn [length] in Hlen.
+    destruct (IH evs' fs' p2 rest ltac:(lia) Hw2 Hok2) as (tr & Hrun & Hview & Hne & Hlast).
+    exists ((g, p1) :: (g2, p2) :: tr). split; [|split; [|split]].
+    - cbn [length parse_run]. rewrite Hn. cbn [pbind snd]. rewrite Hn2. cbn [pbind snd]. rewrite Hrun. reflexivity.
+    - cbn [map]. rewrite Hview, Hv, Hv2. reflexivity.
+    - constructor; [exact He|]. constructor; [exact He2|exact Hne].
+    - rewrite !last_state_cons. exact Hlast. }
+  destruct (stack_top fs) as (s & st0 & Hstk & Hs1 & Hs2 & Hdc & Hrc).
+  destruct e as [[w1 prop w2 vl w4 semi]|sel w2|w3|wc cb|wt tt tb|cw1 cname cw2 craw csemi|aw1 aname apre aw2 asemi|bw1 bname bpre bw2|ew3];
+    cbn [evs_ok] in Hok; cbn [map concat ev_toks] in Hw.
+  - (* declaration *)
+    destruct Hok as (Htop & (Hv & Hp & Hq) & Hsemi & Hok). cbn [d_vals d_semi] in *. specialize (Hdc Htop). rewrite Hstk in Hw.
+    unfold decl_toks, term_toks in Hw. cbn [d_w1 d_prop d_w2 d_vals d_w4 d_semi] in Hw. destruct semi.
+    + repeat (rewrite <- app_assoc in Hw; cbn [app] in Hw).
+      destruct (step_decl p s st0 w1 prop w2 [58] vl w4 (TSemicolon, [59]) _ Hdc (or_introl eq_refl) Hw Hv Hp Hq) as (p1 & Hn & Ht & Hdd & Hb & He & Hw1).
+      unfold wf_after in Hw1. cbn [fst] in Hw1. change (is_t TSemicolon TRightBrace) with false in Hw1. cbv beta iota in Hw1. rewrite <- Hstk in Hw1.
+      eapply (Hcons _ p1 _ fs Hn eq_refl He Hw1 Hok). unfold view. cbn [fst snd ev_unit d_prop d_vals]. rewrite Ht, Hdd, Hb. reflexivity.
+    + specialize (Hsemi eq_refl). destruct evs as [|e2 evs']; [contradiction|]. cbn [closer_next] in Hsemi.
+      destruct (closer_toks e2 Hsemi) as (w3 & Ew3). cbn [map concat] in Hw. rewrite Ew3 in Hw.
       repeat (rewrite <- app_assoc in Hw; cbn [app] in Hw).
-      destruct fs as [|[|] fs].
-      * unfold stack in Hw. cbn [map frame_state app] in Hw.
-        destruct (step_begin p SStylesheet [] o1 t1 b1 sl w2 [123] _ (or_introl eq_refl) Hw Hs1 Hs2 Hs3) as (p1 & Hn & Ht & Hdd & Hb & He & Hw1).
-        eapply (Hcons _ p1 _ [FRule] Hn eq_refl He Hw1 Hok). unfold view. cbn [fst snd ev_unit]. rewrite Ht, Hdd, Hb. reflexivity.
-      * unfold stack in Hw. cbn [map frame_state app] in Hw.
-        destruct (step_nested p _ o1 t1 b1 sl w2 [123] _ Hw Hs1 Hs2 Hs3) as (p1 & Hn & Ht & Hdd & Hb & He & Hw1).
-        eapply (Hcons _ p1 _ (FRule :: FRule :: fs) Hn eq_refl He Hw1 Hok). unfold view. cbn [fst snd ev_unit]. rewrite Ht, Hdd, Hb. reflexivity.
-      * unfold stack in Hw. cbn [map frame_state app] in Hw.
-        destruct (step_begin p SAtRuleRuleList _ o1 t1 b1 sl w2 [123] _ (or_intror eq_refl) Hw Hs1 Hs2 Hs3) as (p1 & Hn & Ht & Hdd & Hb & He & Hw1).
-        eapply (Hcons _ p1 _ (FRule :: FAtRules :: fs) Hn eq_refl He Hw1 Hok). unfold view. cbn [fst snd ev_unit]. rewrite Ht, Hdd, Hb. reflexivity.
-    + destruct fs as [|[|] fs]; try contradiction. unfold stack in Hw. cbn [map frame_state app] in Hw.
-      repeat (rewrite <- app_assoc in Hw; cbn [app] in Hw).
-      destruct (step_end p _ w3 [125] _ Hw) as (p1 & Hn & Ht & Hdd & He & Hw1).
-      eapply (Hcons _ p1 _ fs Hn eq_refl He Hw1 Hok). unfold view. cbn [fst snd ev_unit]. rewrite Ht, Hdd. reflexivity.
-    + destruct Hok as (Hd & Hok). subst fs. unfold stack in Hw. cbn [map app] in Hw.
-      repeat (rewrite <- app_assoc in Hw; cbn [app] in Hw).
-      destruct (step_comment p wc cb _ Hw) as (p1 & Hn & Ht & Hdd & He & Hw1).
-      eapply (Hcons _ p1 _ [] Hn eq_refl He Hw1 Hok). unfold view. cbn [fst snd ev_unit]. rewrite Ht, Hdd. reflexivity.
-    + destruct Hok as (Hd & Hcd & Hok). subst fs. unfold stack in Hw. cbn [map app] in Hw.
-      repeat (rewrite <- app_assoc in Hw; cbn [app] in Hw).
-      destruct (step_cd p wt tt tb _ Hw Hcd) as (p1 & Hn & Ht & Hdd & He & Hw1).
-      eapply (Hcons _ p1 _ [] Hn eq_refl He Hw1 Hok). unfold view. cbn [fst snd ev_unit]. rewrite Ht, Hdd. reflexivity.
-    + destruct fs as [|[|] fs]; try contradiction. destruct Hok as (Hr1 & Hr2 & Hok). unfold stack in Hw. cbn [map frame_state app] in Hw.
-      repeat (rewrite <- app_assoc in Hw; cbn [app] in Hw).
-      destruct (step_custom p _ cw1 cname cw2 [58] craw [59] _ Hw Hr1 Hr2) as (p1 & Hn & Ht & Hdd & Hb & He & Hw1).
+      destruct (step_decl p s st0 w1 prop w2 [58] vl w3 (TRightBrace, [125]) _ Hdc (or_intror eq_refl) Hw Hv Hp Hq) as (p1 & Hn & Ht & Hdd & Hb & He & Hw1).
+      unfold wf_after in Hw1. cbn [fst] in Hw1. change (is_t TRightBrace TRightBrace) with true in Hw1. cbv beta iota in Hw1. rewrite <- Hstk in Hw1.
+      eapply (Hcons2 _ p1 e2 evs' eq_refl Hsemi Hn); [|exact He|exact Hw1|exact Hok].
+      unfold view. cbn [fst snd ev_unit d_prop d_vals]. rewrite Ht, Hdd, Hb. reflexivity.
+  - (* ruleset *)
+    destruct Hok as ((Hf1 & Hf2 & Hf3) & Hok). destruct sel as [|[o1 [t1 b1]] sl]; [contradiction|]. cbn [fst snd] in Hf1.
+    repeat (rewrite <- app_assoc in Hw; cbn [app] in Hw). rewrite Hstk in Hw.
+    assert (Hcase : decl_top fs \/ ~ decl_top fs) by (destruct fs as [|[| |] fs0]; cbn [decl_top]; auto).
+    destruct Hcase as [Htop|Htop].
+    + assert (Hnf : nest_first (t1, b1) = true) by (destruct fs as [|[| |] fs0]; cbn [decl_top] in Htop; try contradiction; exact Hf1).
+      destruct (step_nested p s st0 o1 t1 b1 sl w2 [123] _ (Hdc Htop) Hw Hnf Hf2 Hf3) as (p1 & Hn & Ht & Hdd & Hb & He & Hw1).
+      rewrite <- Hstk in Hw1. change (SQualifiedRuleDeclarationList :: stack fs) with (stack (FRule :: fs)) in Hw1.
       eapply (Hcons _ p1 _ (FRule :: fs) Hn eq_refl He Hw1 Hok). unfold view. cbn [fst snd ev_unit]. rewrite Ht, Hdd, Hb. reflexivity.
-    + destruct Hok as (Htop & Hh & Hp1 & Hp2 & Hok). destruct (rule_top_ctx fs Htop) as (s & st0 & Hstk & Hctx). rewrite Hstk in Hw.
-      repeat (rewrite <- app_assoc in Hw; cbn [app] in Hw).
-      destruct (step_at p s st0 aw1 aname apre aw2 (TSemicolon, [59]) _ ah Hctx Hw Hh Hp1 Hp2 (or_introl eq_refl)) as (p1 & Hn & Ht & Hdd & Hb & He & Hw1).
-      cbn [fst] in Hn, Hw1. change (is_t TSemicolon TSemicolon) with true in Hn, Hw1. cbv beta iota in Hn, Hw1. rewrite <- Hstk in Hw1.
+    + assert (Hsf : sel_first t1 = true) by (destruct fs as [|[| |] fs0]; cbn [decl_top] in Htop; try (exfalso; apply Htop; exact I); exact Hf1).
+      destruct (step_begin p s st0 o1 t1 b1 sl w2 [123] _ (Hrc Htop) Hw Hsf Hf2 Hf3) as (p1 & Hn & Ht & Hdd & Hb & He & Hw1).
+      rewrite <- Hstk in Hw1. change (SQualifiedRuleDeclarationList :: stack fs) with (stack (FRule :: fs)) in Hw1.
+      eapply (Hcons _ p1 _ (FRule :: fs) Hn eq_refl He Hw1 Hok). unfold view. cbn [fst snd ev_unit]. rewrite Ht, Hdd, Hb. reflexivity.
+  - (* '}' of a ruleset *)
+    destruct fs as [|[| |] fs]; try contradiction. unfold stack in Hw. cbn [map app] in Hw.
+    repeat (rewrite <- app_assoc in Hw; cbn [app] in Hw).
+    destruct (step_close p FRule _ w3 [125] _ Hw) as (p1 & Hn & Ht & Hdd & He & Hw1).
+    eapply (Hcons _ p1 _ fs Hn eq_refl He Hw1 Hok). unfold view. cbn [fst snd ev_unit close_g]. rewrite Ht, Hdd. reflexivity.
+  - destruct Hok as (Hd & Hok). subst fs. unfold stack in Hw. cbn [map app] in Hw.
+    repeat (rewrite <- app_assoc in Hw; cbn [app] in Hw).
+    destruct (step_comment p wc cb _ Hw) as (p1 & Hn & Ht & Hdd & He & Hw1).
+    eapply (Hcons _ p1 _ [] Hn eq_refl He Hw1 Hok). unfold view. cbn [fst snd ev_unit]. rewrite Ht, Hdd. reflexivity.
+  - destruct Hok as (Hd & Hcd & Hok). subst fs. unfold stack in Hw. cbn [map app] in Hw.
+    repeat (rewrite <- app_assoc in Hw; cbn [app] in Hw).
+    destruct (step_cd p wt tt tb _ Hw Hcd) as (p1 & Hn & Ht & Hdd & He & Hw1).
+    eapply (Hcons _ p1 _ [] Hn eq_refl He Hw1 Hok). unfold view. cbn [fst snd ev_unit]. rewrite Ht, Hdd. reflexivity.
+  - (* custom property *)
+    destruct Hok as (Htop & Hr1 & Hr2 & Hsemi & Hok). specialize (Hdc Htop). rewrite Hstk in Hw. destruct csemi.
+    + repeat (rewrite <- app_assoc in Hw; cbn [app] in Hw).
+      destruct (step_custom p s st0 cw1 cname cw2 [58] craw (TSemicolon, [59]) _ Hdc (or_introl eq_refl) Hw Hr1 Hr2) as (p1 & Hn & Ht & Hdd & Hb & He & Hw1).
+      unfold wf_after in Hw1. cbn [fst] in Hw1. change (is_t TSemicolon TRightBrace) with false in Hw1. cbv beta iota in Hw1. rewrite <- Hstk in Hw1.
       eapply (Hcons _ p1 _ fs Hn eq_refl He Hw1 Hok). unfold view. cbn [fst snd ev_unit]. rewrite Ht, Hdd, Hb. reflexivity.
-    + destruct Hok as (Htop & Hh & Hk & Hp1 & Hp2 & Hok). destruct (rule_top_ctx fs Htop) as (s & st0 & Hstk & Hctx). rewrite Hstk in Hw.
+    + specialize (Hsemi eq_refl). destruct evs as [|e2 evs']; [contradiction|].
+      assert (Hcl : closer e2 /\ ev_toks e2 = [(TRightBrace, [125])]).
+      { cbn [closer_tight] in Hsemi. destruct e2 as [| | [|] | | | | | | [|]]; try contradiction; split; try exact I; reflexivity. }
+      destruct Hcl as (Hcl & Ew3). cbn [map concat] in Hw. rewrite Ew3 in Hw.
       repeat (rewrite <- app_assoc in Hw; cbn [app] in Hw).
-      destruct (step_at p s st0 bw1 bname bpre bw2 (TLeftBrace, [123]) _ bh Hctx Hw Hh Hp1 Hp2 (or_intror eq_refl)) as (p1 & Hn & Ht & Hdd & Hb & He & Hw1).
-      cbn [fst] in Hn, Hw1. change (is_t TLeftBrace TSemicolon) with false in Hn, Hw1. cbv beta iota in Hn, Hw1.
-      rewrite Hk, <- Hstk in Hw1. change (SAtRuleRuleList :: stack fs) with (stack (FAtRules :: fs)) in Hw1.
+      destruct (step_custom p s st0 cw1 cname cw2 [58] craw (TRightBrace, [125]) _ Hdc (or_intror eq_refl) Hw Hr1 Hr2) as (p1 & Hn & Ht & Hdd & Hb & He & Hw1).
+      unfold wf_after in Hw1. cbn [fst] in Hw1. change (is_t TRightBrace TRightBrace) with true in Hw1. cbv beta iota in Hw1. rewrite <- Hstk in Hw1.
+      eapply (Hcons2 _ p1 e2 evs' eq_refl Hcl Hn); [|exact He|exact Hw1|exact Hok].
+      unfold view. cbn [fst snd ev_unit]. rewrite Ht, Hdd, Hb. reflexivity.
+  - (* at-rule without block *)
+    destruct Hok as (Hp1 & Hp2 & Hsemi & Hok). rewrite Hstk in Hw. unfold term_toks in Hw. destruct asemi.
+    + repeat (rewrite <- app_assoc in Hw; cbn [app] in Hw).
+      destruct (step_at p s st0 aw1 aname apre aw2 (TSemicolon, [59]) _ Hs1 Hs2 Hw Hp1 Hp2 (or_introl (or_introl eq_refl))) as (p1 & Hn & Ht & Hdd & Hb & He & Hw1).
+      cbn [fst] in Hn, Hw1. change (is_t TSemicolon TLeftBrace) with false in Hn, Hw1. cbv beta iota in Hn, Hw1.
+      unfold wf_after in Hw1. cbn [fst] in Hw1. change (is_t TSemicolon TRightBrace) with false in Hw1. cbv beta iota in Hw1. rewrite <- Hstk in Hw1.
+      eapply (Hcons _ p1 _ fs Hn eq_refl He Hw1 Hok). unfold view. cbn [fst snd ev_unit]. rewrite Ht, Hdd, Hb. reflexivity.
+    + destruct (Hsemi eq_refl) as (Hfs & Hcn). destruct evs as [|e2 evs']; [contradiction|]. cbn [closer_next] in Hcn.
+      destruct (closer_toks e2 Hcn) as (w3 & Ew3). cbn [map concat] in Hw. rewrite Ew3 in Hw.
+      repeat (rewrite <- app_assoc in Hw; cbn [app] in Hw).
+      destruct (step_at p s st0 aw1 aname apre w3 (TRightBrace, [125]) _ Hs1 Hs2 Hw Hp1 Hp2 (or_introl (or_intror eq_refl))) as (p1 & Hn & Ht & Hdd & Hb & He & Hw1).
+      cbn [fst] in Hn, Hw1. change (is_t TRightBrace TLeftBrace) with false in Hn, Hw1. cbv beta iota in Hn, Hw1.
+      unfold wf_after in Hw1. cbn [fst] in Hw1. change (is_t TRightBrace TRightBrace) with true in Hw1. cbv beta iota in Hw1. rewrite <- Hstk in Hw1.
+      eapply (Hcons2 _ p1 e2 evs' eq_refl Hcn Hn); [|exact He|exact Hw1|exact Hok].
+      unfold view. cbn [fst snd ev_unit]. rewrite Ht, Hdd, Hb. reflexivity.
+  - (* at-rule with block *)
+    destruct Hok as (Hp1 & Hp2 & Hok). rewrite Hstk in Hw.
+    repeat (rewrite <- app_assoc in Hw; cbn [app] in Hw).
+    destruct (step_at p s st0 bw1 bname bpre bw2 (TLeftBrace, [123]) _ Hs1 Hs2 Hw Hp1 Hp2 (or_intror eq_refl)) as (p1 & Hn & Ht & Hdd & Hb & He & Hw1).
+    cbn [fst] in Hn, Hw1. change (is_t TLeftBrace TLeftBrace) with true in Hn, Hw1. cbv beta iota in Hn, Hw1. rewrite <- Hstk in Hw1.
+    destruct (at_st bname) eqn:Est; try contradiction.
+    + change (SAtRuleRuleList :: stack fs) with (stack (FAtRules :: fs)) in Hw1.
       eapply (Hcons _ p1 _ (FAtRules :: fs) Hn eq_refl He Hw1 Hok). unfold view. cbn [fst snd ev_unit]. rewrite Ht, Hdd, Hb. reflexivity.
-    + destruct fs as [|[|] fs]; try contradiction. unfold stack in Hw. cbn [map frame_state app] in Hw.
+    + change (SAtRuleDeclarationList :: stack fs) with (stack (FAtDecls :: fs)) in Hw1.
+      eapply (Hcons _ p1 _ (FAtDecls :: fs) Hn eq_refl He Hw1 Hok). unfold view. cbn [fst snd ev_unit]. rewrite Ht, Hdd, Hb. reflexivity.
+  - (* '}' of an at-rule block *)
+    destruct fs as [|[| |] fs]; try contradiction; unfold stack in Hw; cbn [map app] in Hw;
       repeat (rewrite <- app_assoc in Hw; cbn [app] in Hw).
-      destruct (step_endat p _ ew3 [125] _ Hw) as (p1 & Hn & Ht & Hdd & He & Hw1).
-      eapply (Hcons _ p1 _ fs Hn eq_refl He Hw1 Hok). unfold view. cbn [fst snd ev_unit]. rewrite Ht, Hdd. reflexivity.
+    + destruct (step_close p FAtRules _ ew3 [125] _ Hw) as (p1 & Hn & Ht & Hdd & He & Hw1).
+      eapply (Hcons _ p1 _ fs Hn eq_refl He Hw1 Hok). unfold view. cbn [fst snd ev_unit close_g]. rewrite Ht, Hdd. reflexivity.
+    + destruct (step_close p FAtDecls _ ew3 [125] _ Hw) as (p1 & Hn & Ht & Hdd & He & Hw1).
+      eapply (Hcons _ p1 _ fs Hn eq_refl He Hw1 Hok). unfold view. cbn [fst snd ev_unit close_g]. rewrite Ht, Hdd. reflexivity.
 Qed.
+
+Lemma evs_run evs fs p rest : wf_state p (stack fs) (concat (map ev_toks evs) ++ rest) -> evs_ok fs evs ->
+  exists tr, parse_run (length evs) p = POk tr /\ map view tr = map ev_unit evs /\ no_err tr /\
+    wf_state (last_state p tr) [SStylesheet] rest.
+Proof. apply (evs_run_n (length evs)). lia. Qed.
 
 Lemma parse_run_snoc : forall a p tr1 r, parse_run a p = POk tr1 -> parse_next (last_state p tr1) = POk r ->
   parse_run (a + 1) p = POk (tr1 ++ [r]).
@@ -1398,8 +1606,8 @@ Qed.
 
 (* "a{B:1;c:x;}d{}" *)
 Example wellformed_example :
-  let evs := [EOpen [(None, (TIdent, [97]))] None; EDecl (mkDecl None [66] None [(None, (TNumber, [49]))] None);
-              EDecl (mkDecl None [99] None [(None, (TIdent, [120]))] None); EClose None;
+  let evs := [EOpen [(None, (TIdent, [97]))] None; EDecl (mkDecl None [66] None [(None, (TNumber, [49]))] None true);
+              EDecl (mkDecl None [99] None [(None, (TIdent, [120]))] None true); EClose None;
               EOpen [(None, (TIdent, [100]))] None; EClose None] in
   css_lex [97; 123; 66; 58; 49; 59; 99; 58; 120; 59; 125; 100; 123; 125] = LexDone (concat (map ev_toks evs) ++ optws None) /\
   evs_ok [] evs.
@@ -1411,8 +1619,8 @@ Qed.
 (* " a {\n B : 1 ;c:x; }\nd{}\n" *)
 Example wellformed_example_ws :
   let evs := [EOpen [(Some [32], (TIdent, [97]))] (Some [32]);
-              EDecl (mkDecl (Some [10; 32]) [66] (Some [32]) [(Some [32], (TNumber, [49]))] (Some [32]));
-              EDecl (mkDecl None [99] None [(None, (TIdent, [120]))] None); EClose (Some [32]);
+              EDecl (mkDecl (Some [10; 32]) [66] (Some [32]) [(Some [32], (TNumber, [49]))] (Some [32]) true);
+              EDecl (mkDecl None [99] None [(None, (TIdent, [120]))] None true); EClose (Some [32]);
               EOpen [(Some [10], (TIdent, [100]))] None; EClose None] in
   css_lex [32; 97; 32; 123; 10; 32; 66; 32; 58; 32; 49; 32; 59; 99; 58; 120; 59; 32; 125; 10; 100; 123; 125; 10] =
     LexDone (concat (map ev_toks evs) ++ optws (Some [10])) /\
@@ -1426,9 +1634,9 @@ Qed.
 Example wellformed_example_values :
   let evs := [EOpen [(None, (TIdent, [97]))] None;
               EDecl (mkDecl None [98] None [(Some [32], (TDimension, [49; 112; 120])); (Some [32; 32], (TIdent, [115; 111; 108; 105; 100]));
-                                            (Some [32], (TComma, [44])); (Some [32], (TIdent, [114; 101; 100]))] (Some [32]));
+                                            (Some [32], (TComma, [44])); (Some [32], (TIdent, [114; 101; 100]))] (Some [32]) true);
               EDecl (mkDecl None [99] None [(None, (TFunction, [114; 103; 98; 40])); (None, (TNumber, [49])); (None, (TComma, [44]));
-                                            (Some [32], (TNumber, [50])); (None, (TRightParenthesis, [41]))] None);
+                                            (Some [32], (TNumber, [50])); (None, (TRightParenthesis, [41]))] None true);
               EClose None] in
   css_lex [97; 123; 98; 58; 32; 49; 112; 120; 32; 32; 115; 111; 108; 105; 100; 32; 44; 32; 114; 101; 100; 32; 59;
            99; 58; 114; 103; 98; 40; 49; 44; 32; 50; 41; 59; 125] = LexDone (concat (map ev_toks evs) ++ optws None) /\
@@ -1463,8 +1671,8 @@ Qed.
 Example wellformed_example_nested :
   let evs := [EOpen [(None, (TIdent, [97]))] None;
               EOpen [(None, (TIdent, [98])); (Some [32], (TComma, [44])); (Some [32], (TIdent, [99])); (Some [32], (TIdent, [100]))] None;
-              EDecl (mkDecl None [101] None [(None, (TIdent, [102]))] None); EClose None;
-              EDecl (mkDecl None [103] None [(None, (TIdent, [104]))] None); EClose None] in
+              EDecl (mkDecl None [101] None [(None, (TIdent, [102]))] None true); EClose None;
+              EDecl (mkDecl None [103] None [(None, (TIdent, [104]))] None true); EClose None] in
   css_lex [97; 123; 98; 32; 44; 32; 99; 32; 100; 123; 101; 58; 102; 59; 125; 103; 58; 104; 59; 125] =
     LexDone (concat (map ev_toks evs) ++ optws None) /\
   evs_ok [] evs /\
@@ -1484,7 +1692,7 @@ Example wellformed_example_misc :
   let raw := [(TWhitespace, [32]); (TNumber, [49]); (TWhitespace, [32]); (TComment, [47; 42; 107; 42; 47]); (TWhitespace, [32]);
               (TLeftParenthesis, [40]); (TSemicolon, [59]); (TRightParenthesis, [41]); (TWhitespace, [32])] in
   let evs := [EToken None TCDO [60; 33; 45; 45]; EComment (Some [32]) [47; 42; 99; 42; 47];
-              EOpen [(None, (TIdent, [97]))] None; ECustom None [45; 45; 120] None raw;
+              EOpen [(None, (TIdent, [97]))] None; ECustom None [45; 45; 120] None raw true;
               EOpen [(None, (TDelim, [38])); (None, (TDelim, [46])); (None, (TIdent, [98]))] None; EClose None; EClose None;
               EToken None TCDC [45; 45; 62]] in
   css_lex [60; 33; 45; 45; 32; 47; 42; 99; 42; 47; 97; 123; 45; 45; 120; 58; 32; 49; 32; 47; 42; 107; 42; 47; 32; 40; 59; 41; 32; 59;
@@ -1504,15 +1712,14 @@ Qed.
 (* "@import url(x) s;@MEDIA (m:1px) and (x: y),p{a{b:c;}}" : the prelude keeps the whitespace after the at-keyword and between
    words, drops it after '(' , before ')' and around ':' and ','; @MEDIA is lower-cased and hashes to Media (a rule block) *)
 Example wellformed_example_at :
-  let h_import := 0 in
   let pre1 := [(Some [32], (TURL, [117; 114; 108; 40; 120; 41])); (Some [32], (TIdent, [115]))] in
   let pre2 := [(Some [32], (TLeftParenthesis, [40])); (None, (TIdent, [109])); (None, (TColon, [58])); (None, (TDimension, [49; 112; 120]));
                (None, (TRightParenthesis, [41])); (Some [32], (TIdent, [97; 110; 100])); (Some [32], (TLeftParenthesis, [40]));
                (None, (TIdent, [120])); (None, (TColon, [58])); (Some [32], (TIdent, [121])); (None, (TRightParenthesis, [41]));
                (None, (TComma, [44])); (None, (TIdent, [112]))] in
-  let evs := [EAtRule None [64; 105; 109; 112; 111; 114; 116] pre1 None h_import;
-              EBeginAtRule None [64; 77; 69; 68; 73; 65] pre2 None 9733;
-              EOpen [(None, (TIdent, [97]))] None; EDecl (mkDecl None [98] None [(None, (TIdent, [99]))] None); EClose None;
+  let evs := [EAtRule None [64; 105; 109; 112; 111; 114; 116] pre1 None true;
+              EBeginAtRule None [64; 77; 69; 68; 73; 65] pre2 None;
+              EOpen [(None, (TIdent, [97]))] None; EDecl (mkDecl None [98] None [(None, (TIdent, [99]))] None true); EClose None;
               EEndAtRule None] in
   css_lex [64; 105; 109; 112; 111; 114; 116; 32; 117; 114; 108; 40; 120; 41; 32; 115; 59;
            64; 77; 69; 68; 73; 65; 32; 40; 109; 58; 49; 112; 120; 41; 32; 97; 110; 100; 32; 40; 120; 58; 32; 121; 41; 44; 112; 123;
@@ -1529,4 +1736,29 @@ Example wellformed_example_at :
 Proof.
   cbv zeta. split; [vm_compute; reflexivity|]. split; [|vm_compute; reflexivity].
   repeat (first [discriminate | reflexivity | lia | split | exact I | vm_compute; reflexivity]).
+Qed.
+
+(* "a{b:c}@font-face{d:e;f:g}h{--x: 1}k{@a z}" written the usual way: the last declaration of a block has no
+   ';' - the '}' ends it and the next call reports the end of the block; @font-face and @page have a declaration block;
+   an at-rule without ';' before the '}' *)
+Example wellformed_example_brace :
+  let evs := [EOpen [(None, (TIdent, [97]))] None; EDecl (mkDecl None [98] None [(None, (TIdent, [99]))] None false); EClose None;
+              EBeginAtRule None [64; 102; 111; 110; 116; 45; 102; 97; 99; 101] [] None;
+              EDecl (mkDecl None [100] None [(None, (TIdent, [101]))] None true);
+              EDecl (mkDecl None [102] None [(None, (TIdent, [103]))] None false); EEndAtRule None;
+              EOpen [(None, (TIdent, [104]))] None; ECustom None [45; 45; 120] None [(TWhitespace, [32]); (TNumber, [49])] false; EClose None;
+              EOpen [(None, (TIdent, [107]))] None; EAtRule None [64; 97] [(Some [32], (TIdent, [122]))] None false; EClose None] in
+  css_lex [97; 123; 98; 58; 99; 125; 64; 102; 111; 110; 116; 45; 102; 97; 99; 101; 123; 100; 58; 101; 59; 102; 58; 103; 125;
+           104; 123; 45; 45; 120; 58; 32; 49; 125; 107; 123; 64; 97; 32; 122; 125] = LexDone (concat (map ev_toks evs) ++ optws None) /\
+  evs_ok [] evs /\
+  map ev_unit evs =
+    [(GBeginRuleset, TWhitespace, [], [(TIdent, [97])]); (GDeclaration, TIdent, [98], [(TIdent, [99])]); (GEndRuleset, TRightBrace, [125], []);
+     (GBeginAtRule, TAtKeyword, [64; 102; 111; 110; 116; 45; 102; 97; 99; 101], []);
+     (GDeclaration, TIdent, [100], [(TIdent, [101])]); (GDeclaration, TIdent, [102], [(TIdent, [103])]); (GEndAtRule, TRightBrace, [125], []);
+     (GBeginRuleset, TWhitespace, [], [(TIdent, [104])]);
+     (GCustomProperty, TCustomPropertyName, [45; 45; 120], [(TCustomPropertyValue, [32; 49])]); (GEndRuleset, TRightBrace, [125], []);
+     (GBeginRuleset, TWhitespace, [], [(TIdent, [107])]); (GAtRule, TAtKeyword, [64; 97], [sp; (TIdent, [122])]); (GEndRuleset, TRightBrace, [125], [])].
+Proof.
+  cbv zeta. split; [vm_compute; reflexivity|]. split; [|vm_compute; reflexivity].
+  repeat (first [discriminate | reflexivity | lia | split | exact I | vm_compute; reflexivity | intros _ | intros ?]).
 Qed.
